@@ -51,8 +51,8 @@ class QURotationOperator(AbstractLinearOperator):
 
         cos_2angles = jnp.cos(2 * self.angles)
         sin_2angles = jnp.sin(2 * self.angles)
-        q = x.q * cos_2angles - x.u * sin_2angles
-        u = x.q * sin_2angles + x.u * cos_2angles
+        q = (x.q * cos_2angles - x.u * sin_2angles).astype(x.q.dtype)
+        u = (x.q * sin_2angles + x.u * cos_2angles).astype(x.u.dtype)
 
         if isinstance(x, StokesQUPyTree):
             return StokesQUPyTree(q, u)
@@ -78,8 +78,8 @@ class QURotationTransposeOperator(AbstractLazyInverseOrthogonalOperator):
 
         cos_2angles = jnp.cos(2 * self.operator.angles)
         sin_2angles = jnp.sin(2 * self.operator.angles)
-        q = x.q * cos_2angles + x.u * sin_2angles
-        u = -x.q * sin_2angles + x.u * cos_2angles
+        q = (x.q * cos_2angles + x.u * sin_2angles).astype(x.q.dtype)
+        u = (-x.q * sin_2angles + x.u * cos_2angles).astype(x.u.dtype)
 
         if isinstance(x, StokesQUPyTree):
             return StokesQUPyTree(q, u)
